@@ -195,6 +195,11 @@ pub struct TScenario {
     pub classes: Vec<String>,
 }
 
+/// arms family: does this scenario end with one call beyond the budget?
+fn arms_over(index: u64, k: usize) -> bool {
+    crate::arms_gen::ARM_COUNT > 0 && (index as usize / crate::arms_gen::ARM_COUNT) % 2 == 1 && !crate::arms_gen::arm_name(k).contains("extern")
+}
+
 pub fn props_for(family: &str, profile: &str) -> Vec<&'static str> {
     if profile == "C10" {
         // forced booleans under the exclusion/hand-over schedules: an accepted value is what every
@@ -594,6 +599,12 @@ pub fn execute(sc: &TScenario, sh: &Shared) -> Value {
             for h in hs {
                 let _ = h.join();
             }
+            // every other pass over the arms: one more matching call once the budget is used up
+            // (arms with a Rust ABI only: a panic cannot leave an `extern "C"` fake)
+            if arms_over(scn.index, k) {
+                let ok = crate::arms_gen::call(k, 7);
+                OUTCOMES.lock().unwrap_or_else(|p| p.into_inner()).push((usize::MAX, 7, if ok { 0 } else { 1 }));
+            }
             let r = catch_unwind(AssertUnwindSafe(move || drop(inj)));
             *ev2.lock().unwrap() = Some(r.map_err(|p| panic_msg(&p)));
         }
@@ -744,16 +755,25 @@ pub fn execute(sc: &TScenario, sh: &Shared) -> Value {
     }
     if sc.family == "arms" && crate::arms_gen::ARM_COUNT > 0 {
         let k = sc.index as usize % crate::arms_gen::ARM_COUNT;
-        let outs = OUTCOMES.lock().unwrap_or_else(|p| p.into_inner()).clone();
+        let all = OUTCOMES.lock().unwrap_or_else(|p| p.into_inner()).clone();
+        let over: Option<u32> = all.iter().find(|(t, _, _)| *t == usize::MAX).map(|(_, _, c)| *c as u32);
+        let outs: Vec<_> = all.into_iter().filter(|(t, _, _)| *t != usize::MAX).collect();
         let bad = outs.iter().filter(|(_, _, c)| *c != 0).count();
         let what = format!("arm `{}`: times = {} and exactly {} matching call(s) made from {} thread(s)", crate::arms_gen::arm_name(k), sc.n, outs.len(), sc.calls.len());
         if bad > 0 {
             out_v.push(json!({"tag": "call-within-budget-rejected-under-concurrency", "props": ["C06", "C08"], "detail": format!("{what}: {bad} call(s) panicked")}));
         }
-        match exit_verdict.lock().unwrap().clone() {
-            Some(Ok(())) => {}
-            Some(Err(msg)) => out_v.push(json!({"tag": "concurrent-accounting-inexact", "props": ["C06", "C08"], "detail": format!("{what}; scope exit panicked with {msg:?}")})),
-            None => out_v.push(json!({"tag": "scope-exit-not-reached", "props": ["C06", "C08"], "detail": what})),
+        if over == Some(0) {
+            out_v.push(json!({"tag": "call-beyond-budget-admitted", "props": ["C06", "C08"], "detail": format!("{what}; then one more matching call, which was admitted instead of panicking at the call")}));
+        }
+        match (exit_verdict.lock().unwrap().clone(), over) {
+            (Some(Ok(())), None) => {}
+            (Some(Err(_)), Some(_)) => {
+                probes.insert("over_call_after_concurrent_budget".into(), json!(1));
+            }
+            (Some(Ok(())), Some(_)) => out_v.push(json!({"tag": "count-mismatch-not-reported-at-scope-exit", "props": ["C06", "C08"], "detail": format!("{what}; then one more matching call: scope exit did not panic although the count differs from N")})),
+            (Some(Err(msg)), None) => out_v.push(json!({"tag": "concurrent-accounting-inexact", "props": ["C06", "C08"], "detail": format!("{what}; scope exit panicked with {msg:?}")})),
+            (None, _) => out_v.push(json!({"tag": "scope-exit-not-reached", "props": ["C06", "C08"], "detail": what})),
         }
     }
     let mut faults = serde_json::Map::new();
